@@ -81,7 +81,7 @@ pub fn get_indices_from_sponge(n: usize, t: usize, sponge: &mut Sponge) -> (res:
         res is Ok,
         res->Ok_0@.len() == t,                                                         // name=lc_utils.indices.count_is_t props=C13
         forall|j: int| 0 <= j < t ==> (#[trigger] res->Ok_0@[j]) < n,                  // name=lc_utils.indices.in_range props=C13
-        forall|j: int| 0 <= j < t ==> (#[trigger] res->Ok_0@[j]) == be_value(sp_sqb(idx_state(old(sponge).st@, get_num_bytes_spec(n), j as nat), get_num_bytes_spec(n)), get_num_bytes_spec(n)) % (n as nat),   // name=lc_utils.indices.derived_from_transcript props=C13,C10
+        forall|j: int| 0 <= j < t ==> (#[trigger] res->Ok_0@[j]) == be_value(sp_sqb(idx_state(old(sponge).st@, get_num_bytes_spec(n), j as nat), get_num_bytes_spec(n)), get_num_bytes_spec(n)) % (n as nat),   // name=lc_utils.indices.derived_from_transcript props=C13,C10,C11
         final(sponge).st@ == idx_state(old(sponge).st@, get_num_bytes_spec(n), t as nat),   // name=lc_utils.indices.squeeze_absorb_schedule props=C11
 //@body
 //@rw 1 /let ind = bytes\.iter\(\)\.fold\(0, \|acc, &x\| (.*)\);/ => let mut acc__: usize = 0;
